@@ -3,11 +3,11 @@ package props
 import (
 	"embed"
 	"fmt"
-	"os"
-	"path/filepath"
 	"go/ast"
 	"go/parser"
 	"go/token"
+	"os"
+	"path/filepath"
 	"sort"
 	"strings"
 	"sync"
@@ -304,6 +304,62 @@ func c12EvalPlacement(s *vh.Session, l *vh.Loaded, pl placement) string {
 	return ""
 }
 
+// crossKeyCase: the collective update:ignoreZeroValueField and one of its parts written at
+// different levels. The collective setting stands for all three parts, so the usual rule decides
+// part by part: the value written on the method beats the converter's, which beats -g.
+type crossKeyCase struct {
+	Part       string `json:"part"`       // basic | struct | nillable
+	OuterLevel string `json:"outerLevel"` // cli | conv
+	OuterKey   string `json:"outerKey"`   // "part" or "all": what the outer level writes
+	OuterValue string `json:"outerValue"` // yes | no | bare
+	InnerValue string `json:"innerValue"` // what the method writes with the other key
+}
+
+var crossKeyMarker = map[string]string{"basic": "if source.A != 0 {", "struct": "if source.S != ", "nillable": "if source.F != nil {"}
+
+func c12EvalCrossKey(s *vh.Session, l *vh.Loaded, c crossKeyCase) string {
+	partKey := "update:ignoreZeroValueField:" + c.Part
+	allKey := "update:ignoreZeroValueField"
+	outerKey, innerKey := partKey, allKey
+	if c.OuterKey == "all" {
+		outerKey, innerKey = allKey, partKey
+	}
+	val := func(key, v string) string {
+		if v == "bare" {
+			return key
+		}
+		return key + " " + v
+	}
+	var cli, conv []string
+	if c.OuterLevel == "cli" {
+		cli = []string{val(outerKey, c.OuterValue)}
+	} else {
+		conv = []string{val(outerKey, c.OuterValue)}
+	}
+	m1 := []string{val(innerKey, c.InnerValue)}
+	probe := map[string]string{"basic": "PZeroBasic", "struct": "PZeroStruct", "nillable": "PZeroNillable"}[c.Part]
+	got := c12Run(l, probe, cli, conv, m1, nil)
+	s.Eval(1)
+	if got.Panic {
+		return "goverter panicked: " + got.Err
+	}
+	if !got.OK {
+		return fmt.Sprintf("cross-key %+v: generation fails: %s", c, vh.FirstLines(got.Err, 6))
+	}
+	// M1: the method's own line decides the part; M2 (no line of its own) inherits the outer level
+	wantM1 := c.InnerValue != "no"
+	wantM2 := c.OuterValue != "no"
+	texts := funcTexts(got.Text)
+	marker := crossKeyMarker[c.Part]
+	if has := strings.Contains(texts["M1"], marker); has != wantM1 {
+		return fmt.Sprintf("%s %q at %s level, %s %q on the method: the method's own value decides the %s part, guard expected=%v present=%v", outerKey, c.OuterValue, c.OuterLevel, innerKey, c.InnerValue, c.Part, wantM1, has)
+	}
+	if has := strings.Contains(texts["M2"], marker); has != wantM2 {
+		return fmt.Sprintf("%s %q at %s level: sibling M2 inherits it for the %s part, guard expected=%v present=%v", outerKey, c.OuterValue, c.OuterLevel, c.Part, wantM2, has)
+	}
+	return ""
+}
+
 // c12CLI replays a placement through the real command line: the converter-level and
 // method-level lines are written into the source, the CLI value is passed with -g.
 func c12CLI(s *vh.Session, pl placement) string {
@@ -484,6 +540,14 @@ func TestC12(t *testing.T) {
 			if msg := c12CLI(s, pl); msg != "" {
 				s.FailT(t, "cli", pl, msg)
 			}
+		case "crosskey":
+			var c crossKeyCase
+			if err := s.LoadReplay(&c); err != nil {
+				t.Fatalf("INFRA: %v", err)
+			}
+			if msg := c12EvalCrossKey(s, l, c); msg != "" {
+				s.FailT(t, "crosskey", c, msg)
+			}
 		case "invalid":
 			var c invalidCase
 			if err := s.LoadReplay(&c); err != nil {
@@ -559,6 +623,25 @@ func TestC12(t *testing.T) {
 					s.Label("table:" + p.Key + "@" + p.Conv)
 					if msg := c12EvalPlacement(s, l, pl); msg != "" {
 						s.FailT(t, "placement", pl, msg)
+					}
+				}
+			}
+		}
+	}
+	// the collective zero-value setting against its parts, across levels
+	if s.Shard == 0 {
+		for _, part := range []string{"basic", "struct", "nillable"} {
+			for _, lvl := range []string{"cli", "conv"} {
+				for _, ok := range []string{"part", "all"} {
+					for _, ov := range []string{"yes", "no", "bare"} {
+						for _, iv := range []string{"yes", "no", "bare"} {
+							c := crossKeyCase{Part: part, OuterLevel: lvl, OuterKey: ok, OuterValue: ov, InnerValue: iv}
+							s.Label("crosskey")
+							s.Nontrivial(fmt.Sprintf("crosskey:%+v", c), nil)
+							if msg := c12EvalCrossKey(s, l, c); msg != "" {
+								s.FailT(t, "crosskey", c, msg)
+							}
+						}
 					}
 				}
 			}
